@@ -11,6 +11,36 @@ fn main() {
         std::process::exit(2);
     }
     let sub = args[1].clone();
+    if sub == "txncase" {
+        // vh txncase '<case line>': trace and oracle verdict of one case
+        let line = args[2..].join(" ");
+        let t = vharness::txn::run_case(&line);
+        println!("{}", t);
+        for v in vharness::txn::direct_oracle(&line, &t) {
+            println!("VIOLATION {}", v);
+        }
+        return;
+    }
+    if sub == "txc-case" {
+        // vh txc-case '<case line>': trace and oracle verdict of one case
+        let line = args[2..].join(" ");
+        let t = vharness::txc::run_case(&line);
+        println!("{}", t);
+        for v in vharness::txc::direct_oracle(&line, &t) {
+            println!("VIOLATION {}", v);
+        }
+        return;
+    }
+    if sub == "cutcase" {
+        // vh cutcase <case line...>: replay one case, print trace and oracle verdicts
+        let line = args[2..].join(" ");
+        let t = vharness::cut::run_case(&line);
+        println!("{}", t);
+        for v in vharness::cut::direct_oracle(&line, &t) {
+            println!("VIOLATION {}", v);
+        }
+        return;
+    }
     if sub == "deepchild" {
         vharness::codec::deep_child(args[2].parse().unwrap());
         return;
@@ -78,6 +108,9 @@ fn main() {
         "lifel" => vharness::life::run_link_model(seed, n, thorough, &corpus, &dir),
         "lifeq" => vharness::life::run_flush(&dir),
         "c05" => vharness::c05::run(seed, n, thorough, &corpus, &dir),
+        "txc" => vharness::txc::run(seed, n, thorough, &corpus, &dir),
+        "txn" => vharness::txn::run(seed, n, thorough, &corpus, &dir),
+        "cut" => vharness::cut::run(seed, n, thorough, &corpus, &dir),
         "e2e" => vharness::e2e::run(seed, n, thorough, &corpus, &dir),
         "hostile" => vharness::hostile::run(seed, n, thorough, &corpus, &dir),
         "sasl" => vharness::sasl::run(seed, n, thorough, &corpus, &dir),
